@@ -93,23 +93,23 @@ Proof. intros H. unfold split_on. rewrite split_on_aux_nosep by assumption. cbn 
 
 (* ---------------------------------------------------------------- flags *)
 Definition flag_of (x : str * str * str) : str := snd (fst x).
-Definition item_text (x : str * str * str) : str := fst (fst x) ++ snd (fst x) ++ snd x.
+Definition fitem_text (x : str * str * str) : str := fst (fst x) ++ snd (fst x) ++ snd x.
 
 Lemma space_not_comma s : all_space s -> ~ In 44 s.
 Proof. intros H Hin. unfold all_space in H. rewrite Forall_forall in H. specialize (H _ Hin). unfold is_space in H. cbn [In] in H.
   repeat (destruct H as [H|H]; [discriminate H|]). destruct H. Qed.
 
-Lemma item_no_comma x : flag_item_ok x -> ~ In 44 (item_text x).
-Proof. destruct x as [[pl f] pr]. cbn. intros (Hl & Hr & _ & _ & _ & Hf & _). unfold item_text. cbn.
+Lemma item_no_comma x : flag_item_ok x -> ~ In 44 (fitem_text x).
+Proof. destruct x as [[pl f] pr]. cbn. intros (Hl & Hr & _ & _ & _ & Hf & _). unfold fitem_text. cbn.
   rewrite !in_app_iff. intros [H|[H|H]]; [apply (space_not_comma pl) | apply Hf | apply (space_not_comma pr)]; assumption. Qed.
 
-Lemma flags_body_cons x y r : flags_body (x :: y :: r) = item_text x ++ 44 :: flags_body (y :: r).
-Proof. destruct x as [[pl f] pr]. unfold item_text. cbn [fst snd]. rewrite <- !app_assoc. reflexivity. Qed.
-Lemma flags_body_one x : flags_body [x] = item_text x.
+Lemma flags_body_cons x y r : flags_body (x :: y :: r) = fitem_text x ++ 44 :: flags_body (y :: r).
+Proof. destruct x as [[pl f] pr]. unfold fitem_text. cbn [fst snd]. rewrite <- !app_assoc. reflexivity. Qed.
+Lemma flags_body_one x : flags_body [x] = fitem_text x.
 Proof. destruct x as [[pl f] pr]. reflexivity. Qed.
 
 Lemma split_flags_body items : Forall flag_item_ok items -> items <> [] ->
-  split_on 44 (flags_body items) = map item_text items.
+  split_on 44 (flags_body items) = map fitem_text items.
 Proof.
   induction items as [|x items IH]; intros Hok Hne; [congruence|]. inversion Hok as [|? ? Hx Hr]; subst.
   destruct items as [|y items].
@@ -118,7 +118,7 @@ Proof.
     rewrite IH by (assumption || discriminate). reflexivity.
 Qed.
 
-Lemma strip_item x : flag_item_ok x -> strip (item_text x) = flag_of x.
+Lemma strip_item x : flag_item_ok x -> strip (fitem_text x) = flag_of x.
 Proof. destruct x as [[pl f] pr]. cbn. intros (Hl & Hr & _ & _ & Hf & _). now apply strip_padded. Qed.
 
 Lemma flags_line items : Forall flag_item_ok items -> items <> [] ->
